@@ -407,7 +407,10 @@ def rule_call_parens(ctx, prop):
                 continue
             nconv += 1
             k = _key_like(st, ".call_parentheses")
-            is_input = k is not None and st.disc.get(k) == "Input"
+            cons_ = st.disc.get(k) if k is not None else None
+            # "not Input" has to be established on the path (the omit predicates are also true under the deprecated
+            # no_call_parentheses flag, whatever call_parentheses says): never examined counts as possibly Input
+            is_input = not ((isinstance(cons_, str) and cons_ != "Input") or (isinstance(cons_, tuple) and "Input" in cons_[1]))
             pred = "should_omit_string_parens" if conv == "String" else "should_omit_table_parens"
             omit = [dec for cb, dec in st.decisions.items() if callee(f.blocks[cb]["term"]).endswith(pred)]
             nn = st.disc.get(f"arg:{ni}")
